@@ -1,5 +1,5 @@
 CFG = {
-    "level_text": "Proved (unbounded, all interleavings): threads with private state over a shared value that no step writes obtain exactly their single-threaded outputs and final states (interleaving_noninterference, schedule_irrelevant). The premise is tied to the code by the regenerated inventory of shared / interior-mutable state (must equal the reviewed classification), DictionaryAccess handing out only shared references, and a compile-time Send + Sync assertion. Tested (labelled so): 2..8 Rust threads over one Arc<JapaneseDictionary> with every plugin kind and a user dictionary, and Python threads over tokenizers of one Dictionary, against the sequential results; the observed completion order is replayed through the model in Coq.",
+    "level_text": "Proved (unbounded, all interleavings): threads with private state over a shared value that no step writes obtain exactly their single-threaded outputs and final states (interleaving_noninterference, schedule_irrelevant); a protocol whose steps may write the shared value is, as soon as none changes it, a run of the read-only protocol with the shared value untouched (read_only_steps_leave_dictionary_and_do_not_interfere; the Witness shows a writing step interfering); and the evaluator of the correspondence shards is sound for that statement: an observed concurrent run it accepts gave every thread exactly the table (single-threaded) results of the texts it analysed, in order (accepted_run_is_sequential_per_thread). The premise is tied to the code by the regenerated inventory of shared / interior-mutable state (must equal the reviewed classification), DictionaryAccess handing out only shared references, and a compile-time Send + Sync assertion. Tested (labelled so): 2..8 Rust threads over one Arc<JapaneseDictionary> with every plugin kind and a user dictionary, and Python threads over tokenizers of one Dictionary, against the sequential results; the observed completion order is replayed through the model in Coq.",
     "level_note": "partial: real data races inside unsafe blocks, memory-mapped storage, third-party crates and the allocator cannot be exhibited by the model; they are only exercised by the threaded runs.",
     "facts": ["MutAudit"],
     "profiles": ["debug", "slow"],
